@@ -14,7 +14,14 @@ PROP = 'C17'
 CHARSETS = ('latin1', 'utf-8', 'cp1252', 'shift_jis', 'utf-16', 'ascii',
             'utf-16-le', 'cp437')
 TEXTS = ('', 'abc', '\xe9', '€', 'あ', 'x' * 128, 'a\xe9€',
-         'あ' * 50, '\x00\x7f')
+         'あ' * 50, '\x00\x7f',
+         # long texts: multi-byte characters at every alignment across any
+         # block boundary (1 KiB, 4 KiB, 64 KiB)
+         'あ' * 1000, 'a' + 'あ' * 1000, 'ab' + 'あ' * 1000,
+         '\xe9' * 3000, 'a' + '\xe9' * 3000, '€' * 2000, 'q€' * 1500,
+         ('a\xe9€あ' * 9000), 'x' * 70000)
+LONG_TEXT_FROM = 9          # index of the first long text
+OUTERS = (None, 'cp1252', 'utf-8', 'utf-16', 'latin1')
 
 
 def encodable(text, cs):
@@ -320,11 +327,16 @@ def worker(shard):
     if kind == 'roundtrip':
         cs = shard[1]
         register_custom_spec()
-        for text in TEXTS:
+        for ti, text in enumerate(TEXTS):
             if not encodable(text, cs):
                 continue
-            for t in rm.TEXT_TYPES + ('program_name',):
-                for outer in (None, 'cp1252'):
+            types = rm.TEXT_TYPES + ('program_name',)
+            if ti >= LONG_TEXT_FROM:
+                types = ('text', 'track_name', 'program_name')
+            for t in types:
+                for outer in OUTERS:
+                    if ti >= LONG_TEXT_FROM and outer not in (None, 'utf-8'):
+                        continue
                     check_roundtrip(mido, cs, text, t, outer, acc)
         acc.sample({'charset': cs, 'texts': [t[:8] for t in TEXTS]}, cap=1)
     elif kind == 'load':
@@ -349,7 +361,7 @@ def run():
     css = CHARSETS if thorough else CHARSETS[:5]
     shards = [('roundtrip', cs) for cs in CHARSETS]
     for cs in css:
-        for outer in (None, 'cp1252'):
+        for outer in (None, 'cp1252', 'utf-8'):
             shards.append(('load', cs, outer))
             shards.append(('save', cs, outer))
     run_shards(worker, shards, rep)
@@ -357,7 +369,9 @@ def run():
     rep.coverage['rule'] = (
         f'round trip: {len(CHARSETS)} charsets x {len(TEXTS)} texts '
         f'(encodable pairs) x 9 text-carrying meta types and a custom one registered with add_meta_spec() as documented x ambient {{default, '
-        f'outer meta_charset("cp1252")}}: payload bytes in the file (reference '
+        f'outer meta_charset(cp1252 / utf-8 / utf-16 / latin1)}}, long texts '
+        f'(up to 70000 characters, multi-byte characters at every alignment) '
+        f'included: payload bytes in the file (reference '
         f'decoder) == text.encode(charset), load gives the text back. Faults '
         f'on load: every truncation offset of the saved file, every track '
         f'byte set to 0xFF and 0x80, bad chunk names, undecodable payloads; '
